@@ -142,6 +142,20 @@ CLAIMED['C19'] = dict(
     technique='contract-based deductive verification: Python ast -> VC generator (loop invariant over ghost plan state, property as callee precondition) -> z3; bounded native parse-back sweep',
     design='3 C19')
 
+CLAIMED['C04'] = dict(
+    text='Last sentence of C04 only (reported errors are sorted by position and nothing foreign is reported): unbounded proof over the '
+         'real source of ErrorLog.unique_sorted_errors (nested loops, in-place removal through a dict-value alias, for/else) that the result is '
+         'sorted by (filename or "", line) and consists of logged errors, each filed under its own unique representation, for every log. '
+         'The body of C04 -- byte-identical stub text, error report and pickle under any hash seed, in-process history and loader reuse -- is a '
+         'whole-pipeline non-interference property that no function-level contract here decides; it, and the uniqueness half of the last '
+         'sentence, are covered only by a bounded sweep: the snippets of pytype\'s own functional tests analysed in processes that differ in '
+         'PYTHONHASHSEED, program order and loader reuse, all outputs compared.',
+    note='Trusted: engine/, z3, A-POS (equal unique representations have equal sort keys), A-LIB (sorted(); dict insertion order; sum of lists), '
+         'textual contract of the one-line _sorted_errors. _compare_traceback_strings is uninterpreted (which duplicates are dropped is not under contract). '
+         'Unverified surround: everything else of the pipeline (vm, output, printer, optimizer, pickling, loader caches).',
+    technique='contract-based deductive verification: Python ast -> VC generator (loop invariants, ghost insertion order, alias write-through) -> z3; bounded native determinism sweep for the body of the property',
+    design='3 C04')
+
 NOT_APPLICABLE = {
     'C01': 'whole abstract interpreter vs CPython execution: no function-level contract expresses over-approximation of execution (DESIGN 4)',
     'C02': 'decided by matcher.py (2000 lines) on live VM values; the inhabitant oracle quantifies over programs, not one call (DESIGN 4)',
